@@ -7,6 +7,7 @@ import (
 )
 
 func workersRules(c *Ctx) {
+	c.delegates("(*Workers).Wrap$ret1", "(*Workers).Call", "recv", "p1", "p2")
 	P := c.P
 	if q := c.F("(*Workers).Call"); q.ok() {
 		w, cnt := q.param(0), q.param(1)
